@@ -252,6 +252,11 @@ def _(E, c):
 
 @model('re:^<&?' + BIG_RE + ' as (PartialOrd|PartialEq|Ord|Eq)>::(lt|le|gt|ge|eq|ne|cmp|partial_cmp|max|min)$')
 def _(E, c):
+    if c.callee.idents[-1] in ('max', 'min'):
+        a, b = big(E, c.args[0]), big(E, c.args[1])
+        if is_sym(a) or is_sym(b):
+            v = BigV(z3.If(b >= a, b, a) if c.callee.idents[-1] == 'max' else z3.If(a <= b, a, b))
+            return RefV(Cell(v, 'minmax'), ()) if isinstance(c.args[0], RefV) else v
     r = int_cmp(E, c, big(E, c.args[0]), big(E, c.args[1]))
     if isinstance(r, str) and r == 'a':
         return c.args[0]
@@ -302,6 +307,11 @@ def _(E, c):
 @model('re:^(cmp::)?(max|min)$')
 def _(E, c):
     a, b = E.deref(c.args[0]), E.deref(c.args[1])
+    if isinstance(a, BigV) and isinstance(b, BigV) and (is_sym(a.v) or is_sym(b.v)):
+        # big integers are plain values: merge instead of forking
+        mx = c.callee.idents[-1] == 'max'
+        v = BigV(z3.If(b.v >= a.v, b.v, a.v) if mx else z3.If(a.v <= b.v, a.v, b.v))
+        return RefV(Cell(v, 'minmax'), ()) if isinstance(c.args[0], RefV) else v
     if isinstance(a, (BigV, IntV)) and isinstance(b, (BigV, IntV)):
         r = int_cmp(E, c, a.v, b.v)
         return c.args[0] if (isinstance(r, str) and r == 'a') else c.args[1]
@@ -1036,6 +1046,18 @@ def _(E, c):
 @model('Hamt::is_empty', 'Kamt::is_empty', 'HamtImpl::is_empty')
 def _(E, c):
     m = map_of(E, c.args[0])
+    # the most recent write decides without looking at the (possibly open) base when it stored an entry
+    if m.over and m.over[-1][1] is True:
+        return False
+    if m.base is not None and not base_info(E, m.base).closed:
+        b = base_info(E, m.base)
+        if any(e[1] is True for e in b.entries) and not m.over:
+            return False
+        # open stored map: either it holds a key this path has not touched (then it is not empty whatever the overlay
+        # did to the touched keys: deletes look their key up first), or the touched keys are all there is
+        if not E.ctx.branch(z3.Bool('%s.no_other_keys' % m.base)):
+            return False
+        b.closed = True
     return len(map_entries(E, m)) == 0
 
 
